@@ -116,6 +116,17 @@ func genIds(repo string) *genFile {
 		}
 		t.method(m, fd)
 	}
+	// the comparison functions of the provided sorts, statement by statement
+	g.pf("-- Less methods of the provided sorts\n")
+	for _, recv := range []string{"elementsSort", "elementIDsSort", "featureIDsSort", "nodesSort", "waysSort", "relationsSort"} {
+		var out []string
+		if fd := p.funcDecl(recv, "Less"); fd != nil {
+			p.flat(fd.Body, &out)
+		} else {
+			g.fail("method %s.Less not found", recv)
+		}
+		g.pf("def less_%s : List String := %s\n", recv, leanStrList(out))
+	}
 	return g
 }
 
